@@ -870,6 +870,34 @@ Proof.
   now rewrite (rec_is_kind T T1 _ _ (Hg (fl_hdr f))), (rec_is_kind T T9 _ _ (Hg (fl_ctl f))), Hg.
 Qed.
 
+(* without the clock: a tree whose file header holds a creation time is written as it is *)
+Lemma stamp_rec_id clk x : has_time x = true -> stamp_rec clk x = x.
+Proof.
+  destruct x as [k v]. unfold has_time, stamp_rec, stamp_for, stamp_val. cbn [r_kind r_val].
+  destruct (String.eqb k "FileHeader"); [|reflexivity]. cbn [andb]. destruct (is_nil (gets v TIME)); [discriminate|reflexivity].
+Qed.
+
+Lemma map_id_forallb {A} (g : A -> A) (p : A -> bool) l : (forall x, p x = true -> g x = x) -> forallb p l = true -> map g l = l.
+Proof.
+  intros H. induction l as [|x l IH]; [reflexivity|]. cbn [forallb map]. intros Hp. apply andb_prop in Hp as [H1 H2].
+  now rewrite (H x H1), (IH H2).
+Qed.
+
+Lemma stamp_id clk f : all_file has_time f = true -> stamp clk f = f.
+Proof.
+  pose proof (stamp_rec_id clk) as Hr.
+  assert (He : forall e, all_entry has_time e = true -> map_entry (stamp_rec clk) e = e).
+  { intros [x as_] H. unfold all_entry in H. cbn [en_rec en_addenda] in H. apply andb_prop in H as [H1 H2].
+    unfold map_entry. cbn [en_rec en_addenda]. now rewrite (Hr x H1), (map_id_forallb _ _ _ Hr H2). }
+  assert (Hb : forall b, all_batch has_time b = true -> map_batch (stamp_rec clk) b = b).
+  { intros [h es c] H. unfold all_batch in H. cbn [bt_hdr bt_entries bt_ctl] in H. apply andb_prop in H as [H H3].
+    apply andb_prop in H as [H1 H2]. unfold map_batch. cbn [bt_hdr bt_entries bt_ctl].
+    now rewrite (Hr h H1), (Hr c H3), (map_id_forallb _ _ _ He H2). }
+  destruct f as [h bs is c]. unfold all_file, stamp, map_file. cbn [fl_hdr fl_batches fl_iat fl_ctl]. intros H.
+  apply andb_prop in H as [H H4]. apply andb_prop in H as [H H3]. apply andb_prop in H as [H1 H2].
+  now rewrite (Hr h H1), (Hr c H4), (map_id_forallb _ _ _ Hb H2), (map_id_forallb _ _ _ Hb H3).
+Qed.
+
 Section Compose.
 Variable T : list layout.
 Variable RS : list (string * rules).
